@@ -92,6 +92,12 @@ def prepare(tier: str, seed: int) -> None:
                 li = itertools.cycle(LEAVES[(n + seed) % len(LEAVES):] + LEAVES[:(n + seed) % len(LEAVES)])
                 sh, hs = gen.renumber(to_shape(sk, li, fixed_top=top))
                 SHAPES.append({"expr": sh, "holes": hs, "skeleton": repr(sk), "k": k, "top": top})
+            # unary operators next to `in`: also with numeric literal operands (a sign may be glued to / hoisted into a
+            # number), independent of the leaf rotation
+            if "'U'" in repr(sk) and "'I'" in repr(sk) and k <= 2:
+                for leaf in (("Int", "1"), ("Float", "1.5"), ("Int", "-1")):
+                    sh, hs = gen.renumber(to_shape(sk, itertools.cycle([leaf, ("Id", "a", ())])))
+                    SHAPES.append({"expr": sh, "holes": hs, "skeleton": repr(sk) + f" leaf={leaf[1]}", "k": k, "top": None})
 
 
 def main() -> int:
